@@ -137,11 +137,15 @@ func c01Offset(tp *simcore.Tape, cutoff time.Duration, caps [2]float64) time.Dur
 		return int64(f)
 	}
 	var v int64
-	switch tp.Intn(14, "offkind") {
+	switch tp.Intn(16, "offkind") {
 	case 0:
 		v = 0
 	case 1:
 		v = 1
+	case 14: // with the local clock's 0 the midpoint of a single peer is exactly the cutoff
+		v = 2 * int64(cutoff)
+	case 15:
+		v = 2*int64(cutoff) + []int64{-2, -1, 1, 2}[tp.Intn(4, "d2")]
 	case 2:
 		v = int64(cutoff)
 	case 3:
@@ -452,8 +456,11 @@ func c01World(t *testing.T, r *simcore.Run) any {
 				return
 			}
 			po := mid(lo, hi) // exact midpoint; the code's integer midpoint is within 1 ns of it
-			if d := math.Abs(math.Abs(po) - float64(cfg.PeerClockCutoff)); d <= 1 {
-				return // within rounding of the cutoff: either reading of the statement is fine
+			if d := math.Abs(math.Abs(po) - float64(cfg.PeerClockCutoff)); d <= 1 && (int64(lo)+int64(hi))%2 != 0 {
+				return // a half-nanosecond midpoint next to the cutoff: either rounding is fine
+			}
+			if math.Abs(po) == float64(cfg.PeerClockCutoff) {
+				r.Probe("peer-offset-exactly-at-cutoff") // "within the cutoff": contributes nothing
 			}
 			if math.Abs(po) > float64(cfg.PeerClockCutoff) {
 				peerContrib = true
